@@ -155,29 +155,40 @@ def run_packs(packs, opts: Opts | None = None, **kw):
 AT_PATH = {0: [], 1: ["sub"], 2: ["sub", "deep"], 3: ["other"]}
 
 
+def u2_names(sc):
+    s = sfx(sc["id"])
+    v = sc.get("variant", "distinct")
+    if v == "samename":
+        return {1: "samedecl" + s, 2: "samedecl" + s, "m1": "_moda", "m2": "_modb"}
+    if v == "suffix":
+        return {1: "public_tail" + s, 2: "_tail" + s, "m1": "_moda", "m2": "_modb"}
+    return {1: "declone" + s, 2: "decltwo" + s, "m1": "moda", "m2": "modb"}
+
+
 def u2_files(sc, root: str) -> dict:
     s = sfx(sc["id"])
     sid = f"s{sc['id']:04d}"
+    nm = u2_names(sc)
 
     def decl(t):
-        n = ("declone" if t == 1 else "decltwo") + s
+        n = nm[t]
         if sc["kind"] == "function":
             return f"def {n}(from_d{t}: int) -> int:\n    ...\n"
-        return f"class {n}:\n    def m_d{t}(self) -> int:\n        ...\n"
+        return f"class {n}:\n    def m_d{t}(self) -> int:\n        ...\n\n    def _helper{s}(self) -> int:\n        ...\n"
     files = {f"{sid}/__init__.py": "", f"{sid}/sub/__init__.py": "", f"{sid}/sub/deep/__init__.py": "", f"{sid}/other/__init__.py": "",
              f"{sid}/other/fill.py": "def fill" + s + "() -> int:\n    ...\n",
-             f"{sid}/sub/deep/moda.py": decl(1), f"{sid}/sub/modb.py": decl(2)}
+             f"{sid}/sub/deep/{nm['m1']}.py": decl(1), f"{sid}/sub/{nm['m2']}.py": decl(2)}
     for e in sc["exports"]:
-        mod = ".".join([root, sid, "sub", "deep", "moda"] if e["tgt"] == 1 else [root, sid, "sub", "modb"])
-        n = ("declone" if e["tgt"] == 1 else "decltwo") + s
-        line = f"from {mod} import {n}" + (f" as {e['alias']}{s}" if e["alias"] else "") + "\n"
+        mod = ".".join([root, sid, "sub", "deep", nm["m1"]] if e["tgt"] == 1 else [root, sid, "sub", nm["m2"]])
+        line = f"from {mod} import {nm[e['tgt']]}" + (f" as {e['alias']}{s}" if e["alias"] else "") + "\n"
         files["/".join([sid, *AT_PATH[e["at"]], "__init__.py"])] += line
     return files
 
 
-def u2_observe(sc, stubs: Stubs, rootname: str) -> dict:
+def u2_observe(sc, stubs: Stubs, rootname: str, idx: dict | None = None) -> dict:
     mark = sfx(sc["id"])
     sid = f"s{sc['id']:04d}"
+    nm = u2_names(sc)
     occs = {1: [], 2: []}
     for rel, f in stubs.files.items():
         for d in f.members:
@@ -194,4 +205,11 @@ def u2_observe(sc, stubs: Stubs, rootname: str) -> dict:
                         tgt = int(m.pyname[-1])
             if tgt:
                 occs[tgt].append({"home": [seg.replace(mark, "") for seg in file_home(f, rootname, sid)], "name": d.pyname.replace(mark, "")})
-    return {"decls": [{"tgt": t, "occs": occs[t]} for t in (1, 2)]}
+    jp = {1: "absent", 2: "absent"}
+    if idx is not None:
+        for t, path in ((1, ["sub", "deep", nm["m1"]]), (2, ["sub", nm["m2"]])):
+            jid = "/".join([rootname, sid, *path, nm[t]])
+            e = idx.get("functions" if sc["kind"] == "function" else "classes", {}).get(jid)
+            if e is not None:
+                jp[t] = "true" if e.get("is_public") else "false"
+    return {"decls": [{"tgt": t, "occs": occs[t], "jsonpublic": jp[t]} for t in (1, 2)]}
